@@ -284,4 +284,120 @@ func init() {
 		Nontrivial:    anyReach("c05_"),
 		RequiredReach: []string{"c05_confirm_accepted", "c05_recover_accepted", "c05_genuine_usable_after_rejects", "c05_rejected_recover_expired", "c05_rejected_recover_superseded", "c05_rejected_recover_spent", "c05_rejected_confirm_spent", "c05_rejected_confirm_unknown", "c05_rejected_recover_unknown"},
 	})
+
+	register(&Profile{
+		ID: "C02",
+		Config: func(r *Rng, tier string) Config {
+			c := baseConfig(r)
+			c.dropSetups("expire")
+			switch r.Intn(3) {
+			case 0:
+				c.ensureSetups("totp")
+				c.dropSetups("sms")
+			case 1:
+				c.ensureSetups("sms")
+				c.dropSetups("totp")
+			default:
+				c.ensureSetups("totp", "sms")
+			}
+			c.ensureSetups("recovery")
+			c.EmailAuth2FA = false
+			c.dropModules("oauth2", "register")
+			if r.Chance(2, 3) {
+				c.dropModules("lock")
+			}
+			if r.Chance(2, 3) {
+				c.dropModules("confirm")
+			}
+			for i := range c.Accounts {
+				a := &c.Accounts[i]
+				a.Confirmed = true
+				a.TOTP, a.SMS = false, false
+				switch r.Intn(4) {
+				case 0:
+				case 1:
+					a.TOTP = c.hasSetup("totp")
+					a.SMS = !a.TOTP
+				case 2:
+					a.SMS = c.hasSetup("sms")
+					a.TOTP = !a.SMS
+				default:
+					a.TOTP, a.SMS = c.hasSetup("totp"), c.hasSetup("sms")
+				}
+			}
+			return c
+		},
+		Gen: func(r *Rng, tier string) *genProfile {
+			return &genProfile{MaxSteps: steps(tier, 40, 100), Default: 0, FollowUp: 65, Template: 40,
+				Templates: []string{"adversary_sms", "adversary_sms", "adversary_codes", "adversary_codes", "recover_flow", "login_ok", "otp_flow"},
+				Weights: withW(loginWeights, map[string]int{"totp_validate": 10, "sms_validate": 12, "login": 24, "replay": 3, "advance": 8,
+					"totp_setup": 1, "sms_setup": 1, "register": 0, "oauth2_start": 0, "oauth2_callback": 0, "confirm": 0}),
+				BadSecret: 45, ThreshGaps: 25, SmallGaps: 30,
+				Thresholds: func(c *Config) []time.Duration {
+					return []time.Duration{10 * time.Second, 30 * time.Second, 60 * time.Second}
+				}}
+		},
+		Oracle:        newC02Oracle,
+		Nontrivial:    anyReach("c02_"),
+		RequiredReach: []string{"c02_parked_login", "c02_completed_totp", "c02_completed_sms", "c02_completed_recovery"},
+	})
+	register(&Profile{
+		ID: "C03",
+		Config: func(r *Rng, tier string) Config {
+			c := baseConfig(r)
+			c.dropSetups("expire")
+			switch r.Intn(3) {
+			case 0:
+				c.ensureModules("lock")
+			case 1:
+				c.ensureModules("confirm")
+			default:
+				c.ensureModules("lock", "confirm")
+			}
+			c.EmailAuth2FA = false
+			c.LockDuration = []time.Duration{5 * time.Second, time.Minute, time.Hour}[r.Intn(3)]
+			for i := range c.Accounts {
+				c.Accounts[i].Confirmed = r.Chance(2, 3)
+			}
+			return c
+		},
+		Gen: func(r *Rng, tier string) *genProfile {
+			return &genProfile{MaxSteps: steps(tier, 40, 100), Default: 0, FollowUp: 65, Template: 45,
+				Templates: []string{"gate_between_steps", "gate_between_steps", "gated_paths", "gated_paths", "oauth_gated", "fail_burst", "remember_cycle", "login_ok"},
+				Weights:   withW(loginWeights, map[string]int{"op_lock": 6, "op_unlock": 3, "op_start_confirm": 5, "probe": 10, "confirm": 5, "advance": 6}),
+				BadSecret: 25, ThreshGaps: 20, SmallGaps: 20,
+				Thresholds: func(c *Config) []time.Duration { return []time.Duration{c.LockDuration, c.LockWindow} }}
+		},
+		Oracle:     newC03Oracle,
+		Nontrivial: anyReach("c03_refused_"),
+		RequiredReach: []string{"c03_refused_locked_login", "c03_refused_unconfirmed_login", "c03_login_ok_login", "c03_mw_passed", "c03_mw_refused_locked", "c03_mw_refused_unconfirmed",
+			"c03_login_ok_oauth2_callback", "c03_login_ok_totp_validate"},
+	})
+	register(&Profile{
+		ID: "C13",
+		Config: func(r *Rng, tier string) Config {
+			c := baseConfig(r)
+			c.dropSetups("expire")
+			c.ensureSetups("totp", "sms", "recovery")
+			c.EmailAuth2FA = r.Bool()
+			c.dropModules("oauth2", "register", "lock", "confirm")
+			c.ensureModules("remember", "logout")
+			for i := range c.Accounts {
+				c.Accounts[i].Confirmed = true
+			}
+			return c
+		},
+		Gen: func(r *Rng, tier string) *genProfile {
+			return &genProfile{MaxSteps: steps(tier, 30, 70), Default: 0, FollowUp: 70, Template: 50,
+				Templates: []string{"enroll_totp", "enroll_sms", "everify_probe", "remove_factor", "remove_factor", "halfauth_settings", "adversary_codes"},
+				Weights: withW(loginWeights, map[string]int{"totp_setup": 6, "totp_confirm": 6, "totp_remove": 6, "sms_setup": 6, "sms_confirm": 6, "sms_remove": 6,
+					"recovery_regen": 2, "everify_start": 5, "everify_end": 6, "totp_setup_get": 2, "sms_setup_get": 2, "recover_start": 0, "recover_end": 0, "otp_login": 2,
+					"drop_session": 4, "probe": 3}),
+				BadSecret: 40, ThreshGaps: 15, SmallGaps: 25,
+				Thresholds: func(c *Config) []time.Duration { return []time.Duration{10 * time.Second, 30 * time.Second} }}
+		},
+		Oracle:        newC13Oracle,
+		Nontrivial:    anyReach("c13_"),
+		RequiredReach: []string{"c13_totp_enabled", "c13_sms_enabled", "c13_totp_disabled", "c13_sms_disabled", "c13_everify_ok", "c13_recovery_code_consumed"},
+	})
 }
